@@ -5,6 +5,14 @@ THEOREMS = [
     "C04.parseWhen_precedence",
     "C04.parseWhen_layout_irrelevant",
     "C04.parseThen_render",
+    "C04.parseWhen_render_strlit_opaque",
+    "C04.parseWhen_strlit_opaque_unmask",
+    "C04.parseThen_render_strlit_opaque",
+    "C04.parseValue_strlit_opaque",
+    "C04.unmask_mask_strlit",
+    "C04.strlit_examples",
+    "C04.parseValue_int_roundtrip",
+    "C04.parseValue_renderLit",
     "C04.parseValue_renderLit_partial",
     "C04.parseValue_string_counterexample",
     "C04.parseWhen_strlit_and_counterexample",
@@ -17,10 +25,12 @@ EXHAUSTIVE = {"quick": False, "thorough": False}
 RULE = ("cases = corpus (witness of every fixed defect and of every open finding) + every subset of the seven rule attributes in a "
         "shuffled order + N files generated from the documented GRL grammar: 0..8 rules, quoted/bare names, optional description, "
         "salience over the i32 range, condition trees to depth 5 (6 in thorough) over every atom form, literals of every type "
-        "(i64 extremes, decimals, both quote styles, non-ASCII text, comment markers inside strings, arrays, identifiers, paths, "
-        "arithmetic), every action form, three layout strengths (blanks / mixed white space and redundant parentheses / comments "
+        "(i64 extremes, decimals, both quote styles, non-ASCII text, comment markers inside strings, one string in three with GRL "
+        "metacharacters / keywords / placeholder look-alikes in its body: } { && || ' then ' ( ) ; = , += rule-when-then text; "
+        "arrays, identifiers, paths, arithmetic), the same for rule names, descriptions and group names, every action form, three layout strengths (blanks / mixed white space and redundant parentheses / comments "
         "with GRL metacharacters anywhere white space is allowed, ;; lines and defmodule blocks between rules); every 7th case is "
-        "from the tagged stream M:<class> with one string literal containing a GRL metacharacter in one position. The file is "
+        "from the tagged stream M:<class>: one string literal with a GRL metacharacter in one position (the former F-C04b witnesses, which "
+        "must pass) or a form hit by an open finding (wfdata, method, firstvar). The file is "
         "given to GRLParser::parse_rules and parse_with_modules and every rule text to parse_rule (real code); the three returned "
         "ASTs are printed canonically and (a) compared with the Lean model's prediction, (b) compared by the oracle with "
         "print(expected(abstract rule list carried by the case)). non-trivial = at least one rule and at least 3 condition nodes.")
@@ -36,25 +46,15 @@ ASSUMPTIONS = [
     "white space = { space, tab, CR, LF } (what the regex engine's \\s matches); identifiers are ASCII",
     "no layout variation inside an arithmetic expression text or between a keyword and its '(' (exists( forall( test( f( )",
     "accumulate / stream / typed ($x : T(...)) patterns are outside the modelled grammar",
-    "string literals of the main stream contain none of } && || ( ) ' then ' (conditions), ; += (actions), = , (call arguments), "
-    "{ (header) and not their own quote character — each excluded class is exercised by the tagged stream and reported as a known finding",
+    "a string literal does not contain its own quote character or a line break (there is no escape syntax); the source text has no "
+    "U+0001 outside string literals (the masking's delimiter)",
 ]
 
 
 SIGS = {
-    "M:rbrace": "strlit-contains-rbrace",
-    "M:and": "strlit-contains-logical-op",
-    "M:or": "strlit-contains-logical-op",
-    "M:then": "strlit-contains-then",
-    "M:paren": "strlit-contains-paren",
-    "M:semicolon": "strlit-contains-semicolon",
-    "M:calleq": "call-arg-strlit-contains-eq-or-comma",
-    "M:callcomma": "call-arg-strlit-contains-eq-or-comma",
-    "M:pluseq": "strlit-contains-pluseq",
-    "M:wfdata": "setworkflowdata-parsed-as-assignment",
+    "M:wfdata": "setworkflowdata-value-keeps-quote",
     "M:method": "methodcall-object-dropped",
     "M:firstvar": "multifield-first-last-var-dropped",
-    "M:lbrace-header": "header-strlit-contains-lbrace",
 }
 
 
@@ -72,7 +72,7 @@ LEVEL_TEXT = ("Lean 4 theorems (kernel-checked, unbounded: every condition tree,
               "!, exists/forall; any white space, any redundant parentheses), statement lists and literals round-trip, comments and quoted "
               "header strings are opaque; tied to src/parser/grl.rs by a correspondence check on generated GRL files (full AST of "
               "parse_rules / parse_rule / parse_with_modules vs model) and by the round-trip oracle on the implementation's own output.")
-LEVEL_NOTE = ("Partial: the regex capture layer is modelled by scanning functions and tied by the correspondence only; string literals "
-              "with GRL metacharacters are excluded by hypothesis — each excluded class has a machine-checked counterexample and is a "
-              "listed finding. Trusted: Lean kernel + {propext, Classical.choice, Quot.sound}; hand-written model; harness/driver glue.")
+LEVEL_NOTE = ("Partial: the regex capture layer is modelled by scanning functions and tied by the correspondence only. String literals "
+              "are opaque by theorem: after mask_string_literals the round trips hold for literal bodies with arbitrary content "
+              "(…_strlit_opaque, unmask_mask_strlit); the …_counterexample theorems are about the pipeline without the masking. Trusted: Lean kernel + {propext, Classical.choice, Quot.sound}; hand-written model; harness/driver glue.")
 DESIGN_REF = "§6 C04"
